@@ -291,7 +291,9 @@ func c37rel(m map[string]int64) string {
 
 func TestVerif_C37(t *testing.T) {
 	vrun.Main(t, "C37", func(r *vrun.Run) {
-		defer debug.SetGCPercent(debug.SetGCPercent(1000)) // allocation heavy, tiny live heap: fewer GC cycles
+		// allocation heavy with a tiny live heap: far fewer GC cycles (bounded by a soft memory limit)
+		defer debug.SetGCPercent(debug.SetGCPercent(4000))
+		defer debug.SetMemoryLimit(debug.SetMemoryLimit(4 << 30))
 		r.Rule = "for every (n,p) of the grid accepted by NewSlidingBloomFilter x {(window 1s, default exists script), (window 10s, read-only exists script)}: " +
 			"every timed history of 1..depth steps, a step being (server clock advance from {0, w/2-1ms, w/2, w/2+1ms, w}, operation from the 7-operation alphabet), " +
 			"followed by an epilogue ExistsMulti([c,a,b]) at the time of the last step. depth per configuration is listed in bounds: the representative " +
@@ -355,7 +357,8 @@ func TestVerif_C37(t *testing.T) {
 					// Depth. Timing logic does not depend on (size,k) (beyond k=0), so two representatives get the full depth:
 					// (n=10,p=0.001) with window 1s/default script and (n=1,p=0.5) with window 10s/read-only script (quick tier:
 					// one level less). Every other first occurrence of a (size,k) class gets depth 2, repeats get depth 1.
-					// One Add on the fake server copies both bitmaps once per hash function: depth 1 for huge bitmaps.
+					// One Add on the fake server copies both bitmaps once per hash function: depth 1 for huge bitmaps (and in the
+					// quick tier only the zero advance and only the first variant for the 5MB bitmaps of n=10^6,p=1e-9).
 					class := fmt.Sprintf("size=%d k=%d v=%d", f.size, f.hashIterations, variant)
 					if f.hashIterations == 0 {
 						class = fmt.Sprintf("k=0 v=%d", variant)
@@ -371,12 +374,20 @@ func TestVerif_C37(t *testing.T) {
 					if n == 1 && p == 0.5 && variant == 1 {
 						depth = maxLen - 1
 					}
-					if cost := uint64(f.size/8+1) * uint64(f.hashIterations); cost > 1<<20 {
+					nAdv := c37nAdvances
+					if cost := uint64(f.size/8+1) * uint64(f.hashIterations); cost > 64<<20 {
+						depth = 1
+						if r.Quick() {
+							if variant == 1 {
+								r.Note(fmt.Sprintf("quick tier: %v skipped (one Add allocates >300MB on the fake server); covered by the thorough tier", cfg))
+								continue
+							}
+							nAdv = 1 // only the zero advance
+						}
+					} else if cost > 1<<20 {
 						depth = 1
 					}
 					r.Bounds[fmt.Sprintf("history_length[%v]", cfg)] = depth
-					t0, e0 := time.Now(), r.Evaluations
-					defer func() { r.Note(fmt.Sprintf("TIMING %v depth=%d evals=%d %.2fs", cfg, depth, r.Evaluations-e0, time.Since(t0).Seconds())) }()
 					for length := 1; length <= depth; length++ {
 						steps := make([]c37step, length)
 						var rec func(i int) bool
@@ -393,7 +404,7 @@ func TestVerif_C37(t *testing.T) {
 								}
 								return true
 							}
-							for a := 0; a < c37nAdvances; a++ {
+							for a := 0; a < nAdv; a++ {
 								for o := range c37alphabet {
 									steps[i] = c37step{Adv: a, Op: o}
 									if !rec(i + 1) {
